@@ -743,6 +743,45 @@ func queryTemplate(name, arg string) (string, Term, map[string]any) {
 	}
 }
 
+// the parameters of a view query as rosmar takes them and as the model's vparams
+func viewParams(vp *ViewParams) (map[string]any, Term) {
+	params := map[string]any{}
+	jsonT := func(p *string) Term {
+		if p == nil {
+			return None()
+		}
+		return Some(jsonTerm(*p))
+	}
+	setp := func(name string, p *string) {
+		if p != nil {
+			var v any
+			_ = json.Unmarshal([]byte(*p), &v)
+			params[name] = v
+		}
+	}
+	if vp.Stale {
+		params["stale"] = "ok"
+	}
+	if vp.Descending {
+		params["descending"] = true
+	}
+	limT := None()
+	if vp.Limit > 0 {
+		params["limit"] = vp.Limit
+		limT = Some(N(uint64(vp.Limit)))
+	}
+	setp("startkey", vp.StartKey)
+	setp("endkey", vp.EndKey)
+	setp("key", vp.Key)
+	if vp.ExclusiveEnd {
+		params["inclusive_end"] = false
+	}
+	if vp.NoReduce {
+		params["reduce"] = false
+	}
+	return params, C("mkVparams", B(vp.Stale), B(vp.Descending), limT, jsonT(vp.StartKey), jsonT(vp.EndKey), B(!vp.ExclusiveEnd), jsonT(vp.Key), B(!vp.NoReduce))
+}
+
 // a nil value (Val absent) is passed as nil; the model names what it stands for (Kv.nil_raw / Kv.nil_json)
 func valAny(v *string) any {
 	if v == nil {
@@ -1361,42 +1400,8 @@ func execKvInner(in kvInput, scratch string, prog *kvProgress) (Case, error) {
 				if vp == nil {
 					vp = &ViewParams{}
 				}
-				params := map[string]any{}
-				jsonT := func(p *string) Term {
-					if p == nil {
-						return None()
-					}
-					return Some(jsonTerm(*p))
-				}
-				setp := func(name string, p *string) {
-					if p != nil {
-						var v any
-						_ = json.Unmarshal([]byte(*p), &v)
-						params[name] = v
-					}
-				}
-				if vp.Stale {
-					params["stale"] = "ok"
-				}
-				if vp.Descending {
-					params["descending"] = true
-				}
-				limT := None()
-				if vp.Limit > 0 {
-					params["limit"] = vp.Limit
-					limT = Some(N(uint64(vp.Limit)))
-				}
-				setp("startkey", vp.StartKey)
-				setp("endkey", vp.EndKey)
-				setp("key", vp.Key)
-				if vp.ExclusiveEnd {
-					params["inclusive_end"] = false
-				}
-				if vp.NoReduce {
-					params["reduce"] = false
-				}
-				opT = C("SView", S(st.Coll), S(st.DDoc), S(st.View),
-					C("mkVparams", B(vp.Stale), B(vp.Descending), limT, jsonT(vp.StartKey), jsonT(vp.EndKey), B(!vp.ExclusiveEnd), jsonT(vp.Key), B(!vp.NoReduce)))
+				params, vpT := viewParams(vp)
+				opT = C("SView", S(st.Coll), S(st.DDoc), S(st.View), vpT)
 				res, e := col.View(ctxBg, st.DDoc, st.View, params)
 				if e != nil {
 					respT = rErr(e)
